@@ -42,12 +42,19 @@ pub enum Mutation {
     Checked { nth: u8, class: u8, raw: i32 },
     /// turn slot `at` into a jump of kind `opc_sel` whose target is chosen by class
     Jump { at: u16, opc_sel: u8, class: u8, raw: i16 },
+    /// overwrite the slot after slot `at` with a copy of slot `at` (two byte-identical neighbours:
+    /// whatever is position dependent in the first - a jump or call target - is off by one in the second)
+    CopyToNext { at: u16 },
 }
 
 #[derive(Clone, Debug)]
 pub struct Soup {
     pub slots: Vec<RawSlot>,
     pub muts: Vec<Mutation>,
+    /// (before, after): the program is embedded between that many filler instructions (the part
+    /// after it ends with an exit) before the mutations are applied, so that they may hit any
+    /// position of a long program
+    pub embed: Option<(u32, u32)>,
 }
 
 fn idx(sel: u16, len: usize) -> usize {
@@ -123,6 +130,18 @@ pub fn lower(s: &Soup) -> Vec<u8> {
         }
     }
     let mut bytes = encode_prog(&insns);
+    if let Some((before, after)) = s.embed {
+        let filler = Insn::new(alu_opc(true, ALU_MOV, false), 1, 0, 0, 7).encode();
+        let mut all = Vec::with_capacity(bytes.len() + 8 * (before + after) as usize);
+        for _ in 0..before {
+            all.extend_from_slice(&filler);
+        }
+        all.extend_from_slice(&bytes);
+        for k in 0..after {
+            all.extend_from_slice(&if k + 1 == after { Insn::new(EXIT, 0, 0, 0, 0).encode() } else { filler });
+        }
+        bytes = all;
+    }
     for m in &s.muts {
         apply(m, &mut bytes);
     }
@@ -250,6 +269,12 @@ fn apply(m: &Mutation, bytes: &mut Vec<u8>) {
                 }
             }
         }
+        Mutation::CopyToNext { at } => {
+            let a = at_of(*at);
+            if a + 1 < n {
+                bytes.copy_within(a * 8..a * 8 + 8, (a + 1) * 8);
+            }
+        }
         Mutation::Jump { at, opc_sel, class, raw } => {
             let a = at_of(*at);
             let jumps: Vec<u8> = supported_opcodes().into_iter().filter(|o| is_jump_kind(kind_of(*o).unwrap())).collect();
@@ -282,6 +307,7 @@ pub fn mutation() -> impl Strategy<Value = Mutation> {
         1 => any::<u16>().prop_map(|at| Mutation::BreakSecondHalf { at }),
         3 => (any::<u16>(), any::<u8>(), any::<i32>()).prop_map(|(at, class, raw)| Mutation::LocalCall { at, class, raw }),
         3 => (any::<u16>(), any::<u8>(), any::<u8>(), any::<i16>()).prop_map(|(at, opc_sel, class, raw)| Mutation::Jump { at, opc_sel, class, raw }),
+        2 => any::<u16>().prop_map(|at| Mutation::CopyToNext { at }),
     ]
 }
 
@@ -290,5 +316,27 @@ pub fn soup(max_len: usize) -> impl Strategy<Value = Soup> {
     let nm = prop_oneof![3 => Just(0usize), 4 => Just(1usize), 2 => Just(2usize)];
     (prop::collection::vec(raw_slot(), 0..max_len), nm)
         .prop_flat_map(|(slots, nm)| (Just(slots), prop::collection::vec(mutation(), nm..=nm)))
-        .prop_map(|(slots, muts)| Soup { slots, muts })
+        .prop_map(|(slots, muts)| Soup { slots, muts, embed: None })
+}
+
+/// `soup`, and in one case out of forty the program is embedded in a long one: 0-70,000 filler
+/// instructions before and after it (sizes around 2^15 and 2^16 over-represented).
+pub fn soup_long(max_len: usize) -> impl Strategy<Value = Soup> {
+    (soup(max_len), prop_oneof![39 => Just(None), 1 => embed_sizes().prop_map(Some)]).prop_map(|(mut s, e)| {
+        s.embed = e;
+        s
+    })
+}
+
+pub fn embed_sizes() -> impl Strategy<Value = (u32, u32)> {
+    let size = || prop_oneof![2 => 0u32..64, 3 => 32_760u32..32_780, 2 => 65_530u32..65_545, 3 => 0u32..70_000];
+    (size(), size())
+}
+
+/// every program embedded
+pub fn soup_embedded(max_len: usize) -> impl Strategy<Value = Soup> {
+    (soup(max_len), embed_sizes()).prop_map(|(mut s, e)| {
+        s.embed = Some(e);
+        s
+    })
 }
